@@ -81,7 +81,13 @@ func checkEntropy(c entCase) (h.Info, error) {
 		info.Class = "entropy/all-zero"
 	}
 	orig := append([]byte{}, e...)
+	// the entropy as a sub-slice with spare capacity: nothing behind it may be touched
+	guarded := append(append(make([]byte, 0, len(e)+16), e...), bytes.Repeat([]byte{0x5a}, 16)...)
+	e = guarded[:len(orig)]
 	m, err := bip39.EntropyToMnemonic(e)
+	if !bytes.Equal(guarded[len(orig):], bytes.Repeat([]byte{0x5a}, 16)) {
+		return info, fmt.Errorf("EntropyToMnemonic(%x) wrote behind its input slice: %x", orig, guarded[len(orig):])
+	}
 	want := ref.Encode(l, e)
 	if err != nil || !eqWords(m, want) {
 		return info, fmt.Errorf("EntropyToMnemonic(%x) [%s] = %q, %v; BIP-39 reference %q", e, c.Lang, m, err, want)
@@ -218,6 +224,30 @@ func checkSentence(c sentCase) (h.Info, error) {
 	if !bytes.Equal(got, want) {
 		return info, fmt.Errorf("MnemonicToEntropy(%q) [%s] = %x, reference %x", c.Words, c.Lang, got, want)
 	}
+	// no state between calls: overwrite the result, decode the same sentence again
+	for i := range got {
+		got[i] ^= 0xff
+	}
+	if again, err := bip39.MnemonicToEntropy(append(bip39.Mnemonic{}, c.Words...)); err != nil || !bytes.Equal(again, want) {
+		return info, fmt.Errorf("second MnemonicToEntropy(%q) = %x, %v after the first result was overwritten; want %x", c.Words, again, err, want)
+	}
+	// the same words under the other word list are judged by that list
+	otherLang := langs[0]
+	if c.Lang == langs[0] {
+		otherLang = langs[1]
+	}
+	if err := bip39.SetWordList(otherLang); err != nil {
+		return info, err
+	}
+	_, oerr := ref.Decode(list(otherLang), c.Words)
+	og, gerr := bip39.MnemonicToEntropy(append(bip39.Mnemonic{}, c.Words...))
+	if (oerr == nil) != (gerr == nil) {
+		return info, fmt.Errorf("after switching to the %s list MnemonicToEntropy(%q) = %x, %v; reference error %v", otherLang, c.Words, og, gerr, oerr)
+	}
+	if err := bip39.SetWordList(c.Lang); err != nil {
+		return info, err
+	}
+	got = want
 	re, err := bip39.EntropyToMnemonic(got)
 	if err != nil || !eqWords(re, c.Words) {
 		return info, fmt.Errorf("accepted sentence %q re-encodes to %q, %v", c.Words, re, err)
